@@ -6,6 +6,7 @@ theorem here even before the correspondence runs.
 -/
 import RitiModel.Gen.LogicConsts
 import RitiModel.Gen.PanicSites
+import RitiModel.Gen.CharClasses
 import RitiModel.Model.Context
 namespace Riti.Tie
 open Riti Riti.Gen
@@ -28,6 +29,15 @@ theorem emoji_rank_starts : emojiRankStarts = [1, 1] := by decide
 
 /-- fixed method: cut to 8 + English item (rank `Last _ 1`) or to 9 (`fixedCands`) -/
 theorem fixed_truncation : fixedTruncations = [8, 9] ∧ fixedLastRankNumbers = [1] := by decide
+
+/-- both copies of the sign → independent-vowel table in `process_key_value` (automatic vowel forming; hasanta +
+    sign) are the single `karToVowel` of the model: every listed sign maps to the listed vowel, and the tables
+    list exactly the ten signs on which `karToVowel` is defined (of the eleven of `is_kar`) -/
+theorem sign_vowel_tables :
+    signVowelAuto.all (fun p => karToVowel (Char.ofNat p.1) == some (Char.ofNat p.2)) = true ∧
+    signVowelHasanta.all (fun p => karToVowel (Char.ofNat p.1) == some (Char.ofNat p.2)) = true ∧
+    karSet.all (fun k => (karToVowel (Char.ofNat k)).isSome == (signVowelAuto.map Prod.fst).contains k) = true ∧
+    signVowelAuto.map Prod.fst = signVowelHasanta.map Prod.fst := by decide
 
 /-- the two key values with rules of their own (`zoFola`, `rephValue`) -/
 theorem special_values : zoFolaLiteral = zoFola.map Char.toNat ∧ rephLiteral = rephValue.map Char.toNat := by decide
